@@ -635,6 +635,66 @@ def r13_recorded_index_exists(ctx, rule="C18.R13"):
     ctx.require(rule, 1)
 
 
+def r14_field_list_fits_the_record(ctx, rule="C18.R14"):
+    """`a record PUT is what GET of the same record number returns whatever other records were written`:
+    PUT writes the bytes of the current FIELD list at (n-1)*rec_len, so a list wider than the record
+    length overwrites the records that follow.  Necessary: before a FIELD list is recorded (the push onto
+    field_lists), or before PUT writes, its width is compared with rec_len - on every path, in the
+    recording function or in one of its callers up to the built-in."""
+    prog = ctx.prog
+    fns = [f for f in prog.fns.values() if f.body is not None and f.crate == "rusty_basic"
+           and (f.file or "").endswith("interpreter/io.rs")]
+    rec = None
+    for f in fns:
+        pv = mir.Prov(f.body)
+        for b, t in f.body.calls():
+            if mir.callee_path(t).split("::")[-1] == "push" and t["args"]:
+                r = mir.strip_all(pv.of_operand(t["args"][0]))
+                if r[0] == "field" and r[2] == "field_lists":
+                    rec = (f, b)
+    if rec is None:
+        raise CheckError("%s: nothing pushes onto field_lists (anchor lost)" % rule)
+
+    def guarded(f, site):
+        """a branch on a comparison that mentions rec_len dominates the site"""
+        body = f.body
+        pv = mir.Prov(body)
+        for sb in range(body.nblocks):
+            t = body.term(sb)
+            if t["k"] != "switch" or sb == site or not body.dominates(sb, site):
+                continue
+            p = mir.op_place(t["o"])
+            if p is None:
+                continue
+            o = pv.of_place(p)
+            if o[0] == "bin" and o[1] in ("Gt", "Lt", "Ge", "Le") and mir.origin_mentions(
+                    o, lambda x: x[0] == "field" and len(x) > 2 and x[2] == "rec_len"):
+                return True
+        return False
+
+    def chain_ok(f, site, depth=3):
+        if guarded(f, site):
+            return True
+        if not depth:
+            return False
+        sites = [(g, gb) for g in prog.fns.values() if g.body is not None
+                 for gb, gt in g.body.calls() if (gt.get("res") or mir.callee_of(gt)) == f.id]
+        return bool(sites) and all(chain_ok(g, gb, depth - 1) for g, gb in sites)
+    ok = chain_ok(*rec)
+    if not ok:
+        # or the writer bounds what it writes
+        for f in fns:
+            pv = mir.Prov(f.body)
+            for b, t in f.body.calls():
+                if mir.callee_path(t).split("::")[-1] == "write_all":
+                    ok = ok or guarded(f, b)
+    ctx.decide(ok, rule, rule + ":width-compared-with-rec_len", rec[0].loc,
+               "the FIELD list is recorded only after a comparison with rec_len",
+               "%s records a FIELD list without its width ever being compared with the record length: PUT of a list "
+               "wider than LEN= writes past its record and destroys the records after it" % rec[0].name)
+    ctx.require(rule, 1)
+
+
 def run(ctx):
     common.install(ctx)
     r1_open_guard(ctx)
@@ -651,3 +711,4 @@ def run(ctx):
     from . import c01
     c01.r3_determinism(ctx, "C18.R12")
     r13_recorded_index_exists(ctx)
+    r14_field_list_fits_the_record(ctx)
